@@ -722,6 +722,15 @@ func (g *Gen) trCall(e *CCall, env *Env) (string, VType) {
 		return g.trAs(e.Args[0], env, "Iface")
 	case "bytes":
 		return g.trAs(e.Args[0], env, "Bytes")
+	case "string":
+		// string(x) for x of a named string type: the same value
+		x, xt := g.tr(e.Args[0], env)
+		if xt.Go != nil {
+			if b, ok := xt.Go.Underlying().(*types.Basic); ok && b.Info()&types.IsString != 0 {
+				return x, VType{Go: types.Typ[types.String]}
+			}
+		}
+		trFail("string(%s): only named string types", cexprString(e.Args[0]))
 	case "domsel":
 		// raw domain membership term of a map (for use in triggers): domsel(m, k)
 		m, mt := g.tr(e.Args[0], env)
